@@ -161,8 +161,8 @@ func keys(m map[string]bool) []string {
 
 func init() {
 	props["C16"] = &propDef{
-		Level: "exploration",
-		Rule: "full cartesian product of per-field boundary sets (H in {-1ns,0,1ns,1ms,200ms,1y/3}; TTL, ValidationInterval, DisconnectGracePeriod each in {-1ns,0,1ns,threshold-1ns,threshold,threshold+1ns,1y}; MaxConsecutiveFailures, Priority in {-1,0,1,2}; takeover on/off; each string empty/non-empty) through NewElection with a call-counting provider, compared with the statement's predicate; distinct_nontrivial = distinct configurations the reference predicate rejects (each is distinct by construction)",
+		Level:  "exploration",
+		Rule:   "full cartesian product of per-field boundary sets (H in {-1ns,0,1ns,1ms,200ms,1y/3}; TTL, ValidationInterval, DisconnectGracePeriod each in {-1ns,0,1ns,threshold-1ns,threshold,threshold+1ns,1y}; MaxConsecutiveFailures, Priority in {-1,0,1,2}; takeover on/off; each string empty/non-empty) through NewElection with a call-counting provider, compared with the statement's predicate; distinct_nontrivial = distinct configurations the reference predicate rejects (each is distinct by construction)",
 		Assume: []string{"the lattice covers every comparison in validateConfig at, below and above its threshold; durations beyond one year (3H overflow) are not enumerated"},
 		Direct: c16Direct,
 	}
